@@ -65,6 +65,7 @@ type record struct {
 	Owner     []string `json:"owner"`
 	Sup       []string `json:"sup"`
 	Perms     []string `json:"perms"`
+	Written   bool     `json:"written"` // the Writer produced a document
 	Enc       bool     `json:"enc"`
 	R         int      `json:"R"`
 	Outcome   string   `json:"outcome"`
@@ -250,8 +251,16 @@ func execGroup(ctx *core.Ctx, g *docGroup, seed int64, cross bool, tl *tally) ([
 		Perms: sortedCopy(gc0.Perms), Seed: rnd.Int63()}
 	w, err := writeDoc(spec)
 	if err != nil {
-		// the table only lists requests the model's Writer accepts
-		return nil, core.Infra("Writer refused a request the model accepts (%s, family %s): %v", g.key, conc.name(), err)
+		// the table only lists requests the reference obliges the Writer to
+		// accept (preparable passwords, version and metadata in range): a
+		// refusal is a deviation of the real code, judged like any other record
+		gc := g.cases[0]
+		tl.mu.Lock()
+		tl.refused++
+		tl.mu.Unlock()
+		return []record{{Version: gc.Version, EMD: gc.EMD, User: gc.User, Owner: gc.Owner, Sup: gc.Sup, Perms: sortedCopy(gc.Perms),
+			Written: false, Enc: gc.Enc, R: gc.R, Outcome: "refused", PermsOut: []string{}, Family: conc.name(), Detail: err.Error(),
+			Conc: &concrete{Spec: spec, SupPw: conc.spell(gc.Sup, -1)}, gc: gc}}, nil
 	}
 	obs, err := observeFile(w.file)
 	if err != nil {
@@ -263,7 +272,7 @@ func execGroup(ctx *core.Ctx, g *docGroup, seed int64, cross bool, tl *tally) ([
 		res := readDoc(w, supPw)
 		ctx.Ev.Eval(1)
 		rec := record{Version: gc.Version, EMD: gc.EMD, User: gc.User, Owner: gc.Owner, Sup: gc.Sup, Perms: sortedCopy(gc.Perms),
-			Enc: obs.enc, R: obs.R, Outcome: res.Outcome, Reader: res.Reader, PermsOut: res.PermsOut, ContentOK: res.ContentOK,
+			Written: true, Enc: obs.enc, R: obs.R, Outcome: res.Outcome, Reader: res.Reader, PermsOut: res.PermsOut, ContentOK: res.ContentOK,
 			Family: conc.name(), Detail: res.Detail, Conc: &concrete{Spec: spec, SupPw: supPw}, gc: gc}
 		recs = append(recs, rec)
 		if obs.enc {
@@ -397,7 +406,7 @@ func run(ctx *core.Ctx) error {
 	})
 	suspect := map[int]bool{}
 	for i, r := range recs {
-		if !inRef(r.gc, r.Outcome, r.PermsOut) || r.R != r.gc.R || r.Enc != r.gc.Enc || (r.Outcome == "opened") != r.Reader ||
+		if !r.Written || !inRef(r.gc, r.Outcome, r.PermsOut) || r.R != r.gc.R || r.Enc != r.gc.Enc || (r.Outcome == "opened") != r.Reader ||
 			(r.Enc && r.Outcome == "opened" && !r.ContentOK) {
 			suspect[i] = true
 			tl.tableSuspects++
@@ -417,7 +426,7 @@ func run(ctx *core.Ctx) error {
 		if suspect[i] != isBad[i] {
 			// R differing from the model's choice but admitted by the
 			// standard is the one legitimate difference
-			if suspect[i] && !isBad[i] && recs[i].R != recs[i].gc.R {
+			if suspect[i] && !isBad[i] && recs[i].Written && recs[i].R != recs[i].gc.R {
 				tl.implDiverge++
 				continue
 			}
@@ -456,6 +465,7 @@ func run(ctx *core.Ctx) error {
 	ctx.Ev.Set("schemes_seen", tl.schemes)
 	ctx.Ev.Set("password_families_used", tl.families)
 	ctx.Ev.Set("table_suspects", tl.tableSuspects)
+	ctx.Ev.Set("writer_refusals_of_acceptable_requests", tl.refused)
 	ctx.Ev.Set("impl_model_divergences_within_property", tl.implDiverge)
 	ctx.Ev.Set("indep_secure_files_cross_opened", tl.indepFiles)
 	ctx.Ev.Set("indep_secure_authentications", tl.indepAuth)
@@ -513,12 +523,25 @@ func violationKey(r record) (string, string) {
 		}
 		return "set"
 	}
+	if !r.Written {
+		which := "R<=4"
+		if r.Version >= 20 {
+			which = "R6"
+		}
+		key := fmt.Sprintf("writer-refuses/preparable-password/%s/v=%d/family=%s", which, r.Version, r.Family)
+		msg := fmt.Sprintf("PDF %d.%d: NewWriter with user=%q owner=%q (passwords the standard's preparation accepts) does not produce a document: %s; rejected by the reference decision (Trace_StdSec)",
+			r.Version/10, r.Version%10, r.Conc.Spec.UserPw, r.Conc.Spec.OwnerPw, r.Detail)
+		return key, msg
+	}
 	got := r.Outcome
 	what := ""
 	switch {
 	case r.Outcome == "opened" && !r.ContentOK:
 		got = "opened-content-differs"
 		what = "content read back differs: " + r.Detail
+	case r.Outcome == "opened" && len(r.User) > 0 && (relation(r) == "other" || relation(r) == "none" || relation(r) == "unpreparable"):
+		got = "opened-by-wrong-password"
+		what = "a password that is neither the user nor the owner password after the standard's preparation opens the document"
 	case r.Outcome == "opened":
 		got = "opened/perms=" + strings.Join(r.PermsOut, "+")
 		what = fmt.Sprintf("reported permissions {%s} for requested {%s} (closure {%s})", strings.Join(r.PermsOut, ","), strings.Join(r.Perms, ","), strings.Join(closure(r.Perms), ","))
@@ -528,7 +551,7 @@ func violationKey(r record) (string, string) {
 		what = r.Detail
 	}
 	key := fmt.Sprintf("stdsec/v=%d/R=%d/emd=%v/user=%s/owner=%s/supplied=%s/family=%s/got=%s", r.Version, r.R, r.EMD, cls(r.User), cls(r.Owner), relation(r), r.Family, got)
-	if r.Outcome == "opened" && r.ContentOK {
+	if r.Outcome == "opened" && r.ContentOK && got != "opened-by-wrong-password" {
 		key += "/requested=" + strings.Join(r.Perms, "+")
 	}
 	msg := fmt.Sprintf("PDF %d.%d R=%d user=%q owner=%q opened with %q (%s): NewReader -> %s; %s; rejected by the reference decision (Trace_StdSec)",
@@ -542,6 +565,12 @@ func violationKey(r record) (string, string) {
 // a rejection that shows again is a violation; up to three attempts.
 func confirmAll(ctx *core.Ctx, rejected []record) error {
 	pending := rejected
+	perKey := map[string]int{}
+	defer func() {
+		for _, k := range core.SortedKeys(perKey) {
+			ctx.Logf("rejected records with key %s: %d", k, perKey[k])
+		}
+	}()
 	for attempt := 0; attempt < 3 && len(pending) > 0; attempt++ {
 		again := make([]record, len(pending))
 		for i, r := range pending {
@@ -558,14 +587,19 @@ func confirmAll(ctx *core.Ctx, rejected []record) error {
 		isBad := map[int]bool{}
 		for _, b := range bad {
 			isBad[b] = true
-			if again[b].Outcome == "opened" && !again[b].ContentOK && contentFailsUnencrypted(again[b]) {
+			if again[b].Written && again[b].Outcome == "opened" && !again[b].ContentOK && contentFailsUnencrypted(again[b]) {
 				// not caused by encryption: outside C09 (C02's subject)
 				ctx.Ev.Add("content_failures_also_without_encryption", 1)
 				ctx.Logf("note: content read back differs also without encryption (not a C09 matter): %s", again[b].Detail)
 				continue
 			}
 			key, msg := violationKey(again[b])
-			ctx.Violation(key, msg, replayCase{Record: slim(again[b]), Conc: *again[b].Conc})
+			// at most two replay files per failure class, so that every
+			// class shows up among the reported ones
+			perKey[key]++
+			if perKey[key] <= 2 {
+				ctx.Violation(key, msg, replayCase{Record: slim(again[b]), Conc: *again[b].Conc})
+			}
 		}
 		var rest []record
 		for i := range pending {
@@ -603,7 +637,9 @@ type replayCase struct {
 func reexecute(r record) (record, error) {
 	w, err := writeDoc(r.Conc.Spec)
 	if err != nil {
-		return r, err
+		out := r
+		out.Written, out.Outcome, out.Reader, out.PermsOut, out.ContentOK, out.Detail = false, "refused", false, []string{}, false, err.Error()
+		return out, nil
 	}
 	obs, err := observeFile(w.file)
 	if err != nil {
@@ -611,6 +647,7 @@ func reexecute(r record) (record, error) {
 	}
 	res := readDoc(w, r.Conc.SupPw)
 	out := r
+	out.Written = true
 	out.Enc, out.R = obs.enc, obs.R
 	out.Outcome, out.Reader, out.PermsOut, out.ContentOK, out.Detail = res.Outcome, res.Reader, res.PermsOut, res.ContentOK, res.Detail
 	return out, nil
@@ -633,7 +670,7 @@ func replay(ctx *core.Ctx, raw json.RawMessage) error {
 		}
 		fmt.Printf("  document: PDF %d.%d user=%q owner=%q perms=%v EncryptMetadata=%v -> /R %d\n", now.Version/10, now.Version%10,
 			c.Conc.Spec.UserPw, c.Conc.Spec.OwnerPw, now.Perms, now.EMD, now.R)
-		fmt.Printf("  NewReader(password=%q): outcome=%s reader=%v permissions=%v contentOK=%v %s\n", c.Conc.SupPw, now.Outcome, now.Reader, now.PermsOut, now.ContentOK, now.Detail)
+		fmt.Printf("  written=%v NewReader(password=%q): outcome=%s reader=%v permissions=%v contentOK=%v %s\n", now.Written, c.Conc.SupPw, now.Outcome, now.Reader, now.PermsOut, now.ContentOK, now.Detail)
 		bad, err = core.JudgeCases(ctx, core.TLCOpts{Dir: "crypt", Module: "Trace_StdSec", Cfg: "Trace_StdSec.cfg"}, forTLC([]record{now}), 1, 1)
 		if err != nil {
 			return err
